@@ -32,7 +32,9 @@ def c11 (args : List String) : String :=
       let d64 := splitcat (chainsOfColumn m n (toF64s xs) 0)
       let r64 := (rhatSq d64).sqrt
       let r32 := (rhatSq d32).sqrt
-      if agree r64 r32 5e-4 then id ++ " " ++ tokD r64 else id ++ " INDET"
+      -- W = 0 (e.g. a constant parameter): the diagnostic is undefined (0/0), nothing to compare
+      if r64.isNaN then id ++ " INDET"
+      else if agree r64 r32 5e-4 then id ++ " " ++ tokD r64 else id ++ " INDET"
     | _, _, _ => id ++ " bad-op"
   | id :: _ => id ++ " bad-op"
   | _ => "bad-op"
@@ -70,7 +72,8 @@ def c12 (args : List String) : String :=
       let e64 := essWith autocovBF d64 wv64.1 wv64.2
       let t32 := truncIdx32 (pairSums e32.1)
       let t64 := truncIdx64 (pairSums e64.1)
-      if t32 == t64 && agree e64.2.2 e32.2.2 1.2e-3 then id ++ " " ++ tokD e64.2.2 else id ++ " INDET"
+      if e64.2.2.isNaN then id ++ " INDET"
+      else if t32 == t64 && agree e64.2.2 e32.2.2 1.2e-3 then id ++ " " ++ tokD e64.2.2 else id ++ " INDET"
     | _, _, _ => id ++ " bad-op"
   | id :: _ => id ++ " bad-op"
   | _ => "bad-op"
